@@ -218,6 +218,10 @@ def check(prop, tier, seed=0, workers=None, scale=1.0):
     directed = mod.directed(tier) if hasattr(mod, "directed") else []
     # 3. seeded families
     plan = mod.plan(tier)
+    # sizing of the seeded (sampled) families per tier; enumerated families keep the size of their enumeration
+    ss = getattr(mod, "SEEDED_SCALE", {}).get(tier, 1)
+    enum = getattr(mod, "ENUMERATED", ())
+    plan = [(f, n if f in enum else int(round(n * ss))) for f, n in plan]
     tasks = []
     for family, n in plan:
         n = max(1, int(round(n * scale)))
